@@ -26,7 +26,7 @@ ASSUMPTIONS = [
 
 FEAT = gen.feat(
     p_self=0.1,
-    bodies={"leaf": 4, "next": 3.5, "rec": 1.5, "fnext": 0.4, "next2": 0.3, "rec_next": 0.6},
+    bodies={"next_try": 0.6, "leaf": 4, "next": 3.5, "rec": 1.5, "fnext": 0.4, "next2": 0.3, "rec_next": 0.6},
     p_kw=0.12, p_optional=0.12, ncorpus=(4, 7), nmeth=(4, 8), p_dup_sig=0.1, p_prio=0.4,
 )
 
@@ -44,6 +44,11 @@ def gen_ovld(seed, index):
             t = json.loads(json.dumps(spec["methods"][m]))
             first_cls = spec["meta"]["flavour"][0] == "cls"
             t["body"] = [rng.choice(["leaf", "next"] + (["rec"] if first_cls else []))]
+            if rng.random() < 0.3:
+                # identical signature, other positional parameter names (names are not part of it)
+                for q in t["params"]:
+                    if q[1] == "pos" and q[0].startswith("a"):
+                        q[0] = "b" + q[0][1:]
             spec["methods"][m + "t"] = t
     pool = list(spec["methods"])
     corpus = gen.gen_corpus(rng, spec, FEAT)
